@@ -306,6 +306,23 @@ def generate(repo, pinned, report):
         if name in DOC:
             L.append("/-- " + DOC[name] + " -/")
         L.append(f"def {name} : {ty} := {val}")
+    # process-wide or thread-local mutable state declared in injector_core: the machine / allocator /
+    # encoder models have none (their only state is memory and the OS), so a new `static`,
+    # `thread_local!` or once-cell there is state the model does not have
+    import glob as _glob
+    import rustlex as _rl
+    statics = []
+    for f in sorted(_glob.glob(os.path.join(repo, "src", "injector_core", "*.rs")) + [os.path.join(repo, "src", "injector_core.rs")]):
+        try:
+            text = _rl.strip_comments(open(f).read())
+        except OSError:
+            continue
+        for m in re.finditer(r"\bstatic\s+(?:mut\s+)?([A-Za-z_][A-Za-z0-9_]*)\s*:", text):
+            statics.append(os.path.basename(f) + ":" + m.group(1))
+        for m in re.finditer(r"\b(thread_local|lazy_static)\s*!", text):
+            statics.append(os.path.basename(f) + ":" + m.group(1) + "!")
+    L.append("/-- `static` / `thread_local!` items of src/injector_core (state the models do not have) -/")
+    L.append("def coreStatics : List String := [" + ", ".join('"%s"' % x for x in statics) + "]")
     L += ["", "/-- facts the translator did not recognise in the source as written: they carry the pinned",
           "    value and are tied to the code by the correspondence runs only -/",
           "def fallback : List String := [" + ", ".join('"%s"' % n for n in fallback) + "]",
